@@ -17,15 +17,18 @@ open CanonF GraphSpec
 /-! ## (a) the returned slice is a permutation; the relabelled graph is isomorphic to `g` -/
 
 /-- `canonF_perm`: whenever `CanonicalIsomorphFull(g, classes)` returns (no panic, fuel not exhausted — for ANY fuel), the
-returned slice is a permutation of `0..n-1`. Hypotheses: `g` is a simple graph; the classes are a valid ordered partition
-(`ClassesOK`: non-empty classes whose concatenation is a permutation of `0..n-1`, or nil); and, for the code as it is
-(defect D2 of notes/C02.md: the certificate is never started when bin 0 is a singleton), the first class is not a single
-vertex. -/
-theorem canonF_perm (fuel : Nat) (g : G) (hg : g.WF) (vc : Classes) (hvc : ClassesOK g.n vc)
-    (hfirst : ∀ cls c, vc = some cls → cls.head? = some c → c.length ≠ 1)
+returned slice is a permutation of `0..n-1`. Only hypothesis: the classes are a valid ordered partition (`ClassesOK`:
+non-empty classes whose concatenation is a permutation of `0..n-1`, or nil). For the repaired code (`expandValue` called
+once after the initial refinement; first leaf always accepted) the former hypothesis "the first class is not a single
+vertex" is gone, and the adjacency lists need not even be those of a simple graph. -/
+theorem canonF_perm (fuel : Nat) (g : G) (vc : Classes) (hvc : ClassesOK g.n vc)
     (r : Res) (h : canonicalIsomorphFull fuel g vc = .ok r) :
     ∃ p, r.perm = some p ∧ p.Perm (List.range g.n) :=
-  canonF_perm_full stablePerm fuel g hg vc hvc hfirst r h
+  canonF_perm_full stablePerm fuel g vc hvc r h
+
+/-- singleton first class, edgeless graph with classes, unsorted blocks: all are valid inputs of `canonF_perm` -/
+example : ClassesOK 4 (some [[2], [3, 0, 1]]) ∧ ClassesOK 3 (some [[1], [0], [2]]) :=
+  ⟨⟨by decide, by decide⟩, ⟨by decide, by decide⟩⟩
 
 example : (ofEdges 4 [(0, 1), (1, 2), (2, 3)]).WF ∧ ClassesOK 4 none ∧ ClassesOK 4 (some [[0, 3], [1, 2]]) :=
   ⟨ofEdges_wf _ _, trivial, by decide, by decide⟩
@@ -64,21 +67,20 @@ theorem induced_iso (g : G) (p : List Nat) (hp : p.Perm (List.range g.n)) : GSea
 example : GSearch.Iso ((ofEdges 3 [(0, 1)]).induced [2, 0, 1]) (ofEdges 3 [(0, 1)]) := induced_iso _ _ (by decide)
 
 /-- `canonF_iso`: the graph relabelled with the returned slice (`g.InducedSubgraph(perm)`) is isomorphic to `g`. -/
-theorem canonF_iso (fuel : Nat) (g : G) (hg : g.WF) (vc : Classes) (hvc : ClassesOK g.n vc)
-    (hfirst : ∀ cls c, vc = some cls → cls.head? = some c → c.length ≠ 1)
+theorem canonF_iso (fuel : Nat) (g : G) (vc : Classes) (hvc : ClassesOK g.n vc)
     (r : Res) (h : canonicalIsomorphFull fuel g vc = .ok r) :
     ∃ p, r.perm = some p ∧ GSearch.Iso (g.induced p) g := by
-  obtain ⟨p, hp, hperm⟩ := canonF_perm fuel g hg vc hvc hfirst r h
+  obtain ⟨p, hp, hperm⟩ := canonF_perm fuel g vc hvc r h
   exact ⟨p, hp, induced_iso g p hperm⟩
 
 /-- the same for the unexported wrapper `CanonicalIsomorph` -/
-theorem canonF_perm_simple (fuel : Nat) (g : G) (hg : g.WF) (p : Option (List Nat))
+theorem canonF_perm_simple (fuel : Nat) (g : G) (p : Option (List Nat))
     (h : canonicalIsomorph fuel g = .ok p) : ∃ q, p = some q ∧ q.Perm (List.range g.n) := by
   unfold canonicalIsomorph at h
   cases hf : canonicalIsomorphFull fuel g none with
   | ok r =>
     rw [hf] at h; cases h
-    exact canonF_perm fuel g hg none trivial (by intro cls c hc; cases hc) r hf
+    exact canonF_perm fuel g none trivial r hf
   | panic => rw [hf] at h; cases h
   | outOfFuel => rw [hf] at h; cases h
 
@@ -87,37 +89,45 @@ theorem canonF_perm_simple (fuel : Nat) (g : G) (hg : g.WF) (p : Option (List Na
 
 `IsAutG g γ`: the list `γ = [γ 0, …, γ (n-1)]` is a permutation of `0..n-1` with `g.adj (γ u) (γ v) = g.adj u v`.
 `SameOrbit g a b`: `a` and `b` are connected by automorphisms of `g` (`EqvGen` of `x ↦ γ x`).
-These are statements about automorphisms of the graph; that the generators also preserve the vertex classes is NOT
-claimed (with classes and `m = 0` the current code returns generators of `S_n`: defect D1 of notes/C02.md). -/
+These are statements about automorphisms of the graph, for every valid class input (the `m == 0` shortcut is only taken
+with a single class; an edgeless graph with several classes goes through the general search). The generators also map
+every vertex class into itself (`canonF_generators_preserve_classes`). -/
 
 /-- `canonF_generators_sound`: every generator returned by `CanonicalIsomorphFull` is an automorphism of `g`: each one
 is read off two leaves whose full certificates are equal. The proof carries the certificate invariant (`value` is the
-certificate of the singleton prefix, or a stale certificate that `worseTest` keeps rejecting until the next `deage`
-truncates it) through `splitBin`, the refinement, `deage` and the main loop with all its pruning. -/
+certificate of the singleton prefix; after a "worse" verdict it is the certificate of a prefix cut at a divider of the
+current age, which the next `deage` truncates) through `splitBin`, the refinement, `deage` and the main loop with all its pruning. -/
 theorem canonF_generators_sound (fuel : Nat) (g : G) (hg : g.WF) (vc : Classes) (hvc : ClassesOK g.n vc)
-    (hfirst : ∀ cls c, vc = some cls → cls.head? = some c → c.length ≠ 1)
     (r : Res) (h : canonicalIsomorphFull fuel g vc = .ok r) (gs : List (List Nat)) (hgs : r.gens = some gs) :
     ∀ γ ∈ gs, IsAutG g γ :=
-  (canonF_gens_full stablePerm expandValue_cert expandValue_stale fuel g hg vc hvc hfirst r h).1 gs hgs
+  (canonF_gens_full stablePerm expandValue_cert fuel g hg vc hvc r h).1 gs hgs
 
 /-- `canonF_orbits_sound`: two vertices with the same representative in the returned union–find lie in the same orbit
 of `Aut(g)`: every union performed is justified by a recorded automorphism. -/
 theorem canonF_orbits_sound (fuel : Nat) (g : G) (hg : g.WF) (vc : Classes) (hvc : ClassesOK g.n vc)
-    (hfirst : ∀ cls c, vc = some cls → cls.head? = some c → c.length ≠ 1)
     (r : Res) (h : canonicalIsomorphFull fuel g vc = .ok r) (ds : List Int) (hds : r.orbits = some ds) :
     ds.length = g.n ∧
       ∀ a b, a < g.n → b < g.n → Disjoint.rep ds.toArray a = Disjoint.rep ds.toArray b → SameOrbit g a b :=
-  (canonF_gens_full stablePerm expandValue_cert expandValue_stale fuel g hg vc hvc hfirst r h).2.1 ds hds
+  (canonF_gens_full stablePerm expandValue_cert fuel g hg vc hvc r h).2.1 ds hds
 
 /-- `canonF_orbits_by_generators`: more precisely, vertices with the same representative are connected by the RETURNED
 generators (the orbit partition is not coarser than the orbits of the group the generators generate). -/
 theorem canonF_orbits_by_generators (fuel : Nat) (g : G) (hg : g.WF) (vc : Classes) (hvc : ClassesOK g.n vc)
-    (hfirst : ∀ cls c, vc = some cls → cls.head? = some c → c.length ≠ 1)
     (r : Res) (h : canonicalIsomorphFull fuel g vc = .ok r) (gs : List (List Nat)) (ds : List Int)
     (hgs : r.gens = some gs) (hds : r.orbits = some ds) :
     ∀ a b, a < g.n → b < g.n → Disjoint.rep ds.toArray a = Disjoint.rep ds.toArray b →
       Relation.EqvGen (fun x y => ∃ γ ∈ gs, γ[x]? = some y) a b :=
-  (canonF_gens_full stablePerm expandValue_cert expandValue_stale fuel g hg vc hvc hfirst r h).2.2 gs ds hgs hds
+  (canonF_gens_full stablePerm expandValue_cert fuel g hg vc hvc r h).2.2.1 gs ds hgs hds
+
+/-- `canonF_generators_preserve_classes`: every returned generator maps each vertex class into itself (hence, being a
+permutation, onto itself). The proof carries "the vertex at position `p` of `order` lies in the initial cell of position
+`p`, and the initial dividers are never removed" through `splitBin`, the refinement, `deage` (which re-sorts merged
+bins) and the main loop: every operation only rearranges `order` inside the current bins. -/
+theorem canonF_generators_preserve_classes (fuel : Nat) (g : G) (hg : g.WF) (cls : List (List Nat))
+    (hvc : ClassesOK g.n (some cls))
+    (r : Res) (h : canonicalIsomorphFull fuel g (some cls) = .ok r) (gs : List (List Nat)) (hgs : r.gens = some gs) :
+    ∀ γ ∈ gs, ∀ c ∈ cls, ∀ v ∈ c, ∀ w, γ[v]? = some w → w ∈ c :=
+  (canonF_gens_full stablePerm expandValue_cert fuel g hg (some cls) hvc r h).2.2.2 gs cls hgs rfl
 
 example : IsAutG (ofEdges 3 [(0, 1), (1, 2)]) [2, 1, 0] := by
   refine ⟨by decide, ?_⟩
@@ -135,11 +145,12 @@ theorem cert_eq_gives_automorphism {nb : Nbrs} {n : Nat} {o1 o2 : List Nat} (hnb
     (hc : certPos nb o1 n = certPos nb o2 n) : IsAutL nb n (transport n o1 o2) :=
   aut_of_cert hnb h1 h2 hc
 
-/-- `expandValue` extends a clean certificate by exactly the blocks of the new singleton positions; when it reports
-"worse" it leaves a stale certificate that every later `worseTest` rejects (`VStale`, `Poisoned`) -/
-theorem expandValue_certificate : ExpandCert ∧ ExpandStale := ⟨expandValue_cert, expandValue_stale⟩
+/-- `expandValue` extends a certificate of the singleton prefix by exactly the blocks of the new singleton positions; when
+it reports "worse" it has recorded the prefix length reached (`singletonPrefixLength = j + 1`), so `value` is still the
+certificate of positions `< singletonPrefixLength` (`VStale`) -/
+theorem expandValue_certificate : ExpandCert := expandValue_cert
 
-/-- `deage` restores a clean certificate or keeps a stale one poisoned -/
+/-- `deage` restores a clean certificate -/
 theorem deage_certificate {n : Nat} {nb : Nbrs} {cb fl : Sl Nat} {op op' : OP} (h : PartInv n op) (ha : AgeInv op)
     (hage : 0 < op.age) (hv : VAny nb cb fl op) (hd : deage op = .ok op') : VN nb cb fl op' :=
   deage_cert h ha hage hv hd
@@ -250,12 +261,18 @@ example : (⟨#[(2, 0), (1, 1), (2, 2)], 3⟩ : Sl KV).WF := by unfold Sl.WF; de
 
 /-! ## (e) storage reuse: `Reset` gives the state of a fresh `NewOrderedPartition` -/
 
-/-- `newOrderedPartition_inv`: the initial partition satisfies the invariants. -/
+/-- `newOrderedPartition_inv`: the initial partition satisfies the invariants; every class bin is on the initial work
+list (`binsToCheck = [0, …, #bins - 1]`); each class is sorted inside `order` (`sortNat` = `ints.Sort`), so the result
+does not depend on the order in which a class lists its vertices. -/
 theorem newOrderedPartition_inv {n m : Nat} {vc : Classes} (hn : 0 < n) (hc : ClassesOK n vc) :
     ∃ op, newOrderedPartition n m vc = .ok (some op) ∧ PartInv n op ∧ AgeInv op ∧ op.age = 0 ∧ op.spl = 0 ∧
-      op.value.len = 0 ∧ op.value.data.size = m ∧ op.binsToCheck.toList = [0] := by
-  obtain ⟨op, h1, h2, h3, h4, h5, h6, h7, h8, _⟩ := CanonF.newOrderedPartition_inv (m := m) hn hc
-  exact ⟨op, h1, h2, h3, h4, h5, h6, h7, h8⟩
+      op.value.len = 0 ∧ op.value.data.size = m ∧
+      op.binsToCheck.toList = (List.range op.binDividers.len).map Int.ofNat ∧
+      op.order.toList = (match vc with | none => List.range n | some cls => (cls.map sortNat).flatten) ∧
+      op.binDividers.toList =
+        (match vc with | none => [n] | some cls => (cls.map List.length).scanl (· + ·) 0 |>.tail) := by
+  obtain ⟨op, h1, h2, h3, h4, h5, h6, h7, h8, _, _, _, _, _, h9, h10⟩ := CanonF.newOrderedPartition_inv (m := m) hn hc
+  exact ⟨op, h1, h2, h3, h4, h5, h6, h7, h8, h9, h10⟩
 
 /-- `reset_eq_new`: `Reset(n, m, classes)` on ANY partition value of sufficient capacity (arbitrary stale contents and
 lengths) yields the same observable state — `order`, `binDividers`, `binAges`, `binsToCheck`, `value`, `age`,
@@ -263,7 +280,7 @@ lengths) yields the same observable state — `order`, `binDividers`, `binAges`,
 capacities. -/
 theorem reset_eq_new {n m : Nat} {vc : Classes} (op : OP) (hn : 0 < n) (hc : ClassesOK n vc)
     (c1 : n ≤ op.order.data.size) (c2 : n ≤ op.inCell.data.size) (c3 : n ≤ op.binDividers.data.size)
-    (c4 : n ≤ op.binAges.data.size) (c5 : 1 ≤ op.binsToCheck.data.size) (c6 : m ≤ op.value.data.size) :
+    (c4 : n ≤ op.binAges.data.size) (c5 : n ≤ op.binsToCheck.data.size) (c6 : m ≤ op.value.data.size) :
     ∃ opN opR, newOrderedPartition n m vc = .ok (some opN) ∧ reset op n m vc = .ok opR ∧
       opR.order.toList = opN.order.toList ∧ opR.binDividers.toList = opN.binDividers.toList ∧
       opR.binAges.toList = opN.binAges.toList ∧ opR.binsToCheck.toList = opN.binsToCheck.toList ∧
@@ -277,9 +294,9 @@ theorem reset_eq_new {n m : Nat} {vc : Classes} (op : OP) (hn : 0 < n) (hc : Cla
 /-- the reset partition satisfies the invariants -/
 theorem reset_inv {n m : Nat} {vc : Classes} (op : OP) (hn : 0 < n) (hc : ClassesOK n vc)
     (c1 : n ≤ op.order.data.size) (c2 : n ≤ op.inCell.data.size) (c3 : n ≤ op.binDividers.data.size)
-    (c4 : n ≤ op.binAges.data.size) (c5 : 1 ≤ op.binsToCheck.data.size) (c6 : m ≤ op.value.data.size) :
+    (c4 : n ≤ op.binAges.data.size) (c5 : n ≤ op.binsToCheck.data.size) (c6 : m ≤ op.value.data.size) :
     ∃ opR, reset op n m vc = .ok opR ∧ PartInv n opR ∧ AgeInv opR ∧ opR.age = 0 ∧ opR.spl = 0 ∧
-      opR.value.len = 0 ∧ opR.binsToCheck.toList = [0] :=
+      opR.value.len = 0 ∧ opR.binsToCheck.toList = (List.range opR.binDividers.len).map Int.ofNat :=
   CanonF.reset_inv op hn hc c1 c2 c3 c4 c5 c6
 
 /-- the documented panics of `Reset` -/
